@@ -141,6 +141,10 @@ class TrendUnit(Unit):
                 c["coef"] = [0, gens.dyadic(rng, -4, 4, 2)]
             if c["normalized"] and N == 1:
                 c["normalized"] = False
+            if rng.random() < 0.2:        # the formula is stated for any abscissae: decreasing / unsorted x too
+                c["x"] = c["x"][::-1] if rng.random() < 0.7 else rng.sample(c["x"], len(c["x"]))
+                if c["normalized"] and c["x"][-1] == c["x"][0]:
+                    c["normalized"] = False
             if rng.random() < 0.3:
                 c["coef2"] = rng.choice(POLYS)
             cases.append(c)
